@@ -158,7 +158,9 @@ def concat_to_arr(lists, dtype=np.int64):
     Returns the concatenated array and the index where each list starts.
     """
     starts = np.empty(len(lists) + 1, dtype=np.int64)
-    cumsum([len(ell) for ell in lists], starts, initial=True, final=True)
+    # an ndarray rather than a list: numba cannot type an empty list
+    lens = np.fromiter((len(ell) for ell in lists), dtype=np.int64, count=len(lists))
+    cumsum(lens, starts, initial=True, final=True)
     res = np.fromiter(
         itertools.chain.from_iterable(lists), count=starts[-1], dtype=dtype
     )
